@@ -102,9 +102,13 @@ func VerifPoolLifecycle() {
 			}
 		}
 		s.checkNeverEarly()
+		zzverif.Yield() // the watcher may run here
+		s.checkNeverEarly()
 	}
-	// eventually: once every member has ended the pool ends and its watcher goroutine exits
+	// let the watcher catch up with everything that has happened: still not early
+	zzverif.WaitQuiescent()
 	s.checkNeverEarly()
+	// eventually: once every member has ended the pool ends and its watcher goroutine exits
 	for _, m := range s.members {
 		if !m.done {
 			m.done = true
